@@ -274,6 +274,28 @@ func init() {
 					genFailCase{Op: "ParseOTPAuthURL", KeyHex: hexs(key), Secret: enc, URL: "otpauth://totp/nolabel-" + enc + "?secret=" + enc},
 					genFailCase{Op: "ParseOTPAuthURL", KeyHex: hexs(key), Secret: enc, URL: "otpauth://totp/I:a?secret=" + enc + "#" + enc + "&digits=x"})
 				gf = append(gf, genFailCase{Op: "ParseOTPAuthURL", KeyHex: hexs(key), Secret: enc, URL: "otpauth://xotp/I:a?secret=" + enc}, genFailCase{Op: "ParseOTPAuthURL", KeyHex: hexs(key), Secret: enc, URL: "otpauth://totp/nolabel?secret=" + enc}, genFailCase{Op: "ParseOTPAuthURL", KeyHex: hexs(key), Secret: enc, URL: "https://totp/I:a?secret=" + enc})
+				// one URL per key from the cross product label x type x query oddity x secret position: whatever the
+				// parser objects to (or not), its error must not carry the secret the URL holds
+				{
+					labels := []string{"I:a", "I:" + enc, enc + ":a", "nolabel", "", ":a", "I:", "I%3Aa", "I:a:b", "I: a", "J:a", "i:a"}
+					types := []string{"totp", "hotp", "totp", "xotp", "", "TOTP"}
+					extras := []string{"", "issuer=Other", "issuer=", "issuer=I&issuer=J", "issuer=I", "issuer=J%3A", "issuer=" + enc, "counter=x", "counter=-1", "counter=99999999999999999999", "counter=1",
+						"algorithm=", "algorithm=sha1", "algorithm=SHA3", "digits=", "period=", "digits=0", "period=0", "digits=6&digits=x", "digits=11", "period=4294967296", "image=x", "secret=", "secret=" + enc + "!", "secret=" + badSecret}
+					for rep := 0; rep < 3; rep++ {
+						l, ty, ex := gen.Pick(rng, labels), gen.Pick(rng, types), gen.Pick(rng, extras)
+						ex2 := gen.Pick(rng, extras)
+						var q string
+						switch rng.Intn(3) {
+						case 0:
+							q = "secret=" + enc + "&" + ex + "&" + ex2
+						case 1:
+							q = ex + "&" + ex2 + "&secret=" + enc
+						default:
+							q = ex + "&secret=" + enc + "&" + ex2
+						}
+						gf = append(gf, genFailCase{Op: "ParseOTPAuthURL", KeyHex: hexs(key), Secret: enc, URL: "otpauth://" + ty + "/" + l + "?" + q})
+					}
+				}
 			}
 			parallelJudge(c, gf, judgeGenFail)
 			// the js/wasm validator, compiled natively through the overlay
